@@ -137,7 +137,14 @@ template <class V, int N, int IMPL> struct ReadK {
 				for (int k = 0; k < N; ++k) {
 					w1[k] = (T)(x[k] + o[k]); w2[k] = (T)(o[k] - x[k]); w3[k] = (T)(x[k] * x[k]); w4[k] = (T)(x[k] / o[k]); w5[k] = (T)(x[k] * sc); w6[k] = (T)(sc - x[k]);
 				}
-				arith(q1, w1, "s+t"); arith(q2, w2, "t-s"); arith(q3, w3, "s*s"); arith(q4, w4, "s/t"); arith(q5, w5, "s*scalar"); arith(q6, w6, "scalar-s");
+				// aligned_lowp float vector division is the _mm_rcp_ps approximation (compute_vec_div<L,float,aligned_lowp,true>): not a BITS relation, left to C03
+#if GLM_CONFIG_ALIGNED_GENTYPES == GLM_ENABLE
+				const bool exact_div = !(Q == glm::aligned_lowp && std::is_same<T, float>::value);
+#else
+				const bool exact_div = true;
+#endif
+				arith(q1, w1, "s+t"); arith(q2, w2, "t-s"); arith(q3, w3, "s*s"); if (exact_div) arith(q4, w4, "s/t"); else cs->c.cls("approximate-division-not-compared");
+				arith(q5, w5, "s*scalar"); arith(q6, w6, "scalar-s");
 				cs->refill(false);
 			}
 		}
